@@ -709,3 +709,22 @@ T('c16i_set_expires_two_branches', ['C16'],
   (CK, _SETEXP_NOW + _SETEXP, "        if epoch_time == NOW:\n            self[_EXPIRES] = _LONG_AGO\n        else:\n            self[_EXPIRES] = epoch_time\n"))
 T('c16i_set_expires_conditional_expression', ['C16'],
   (CK, _SETEXP_NOW + _SETEXP, "        self['_expires'] = 123456 if epoch_time == NOW else epoch_time\n"))
+
+# ---------------------------------------------------------------- R16.e: a helper of request() that lives in another module writes what it writes
+_CORE_CLASS = "class Middleware(object):\n"
+B('c16i_options_kept_by_mixin_in_sibling_module', ['C16'], 'R16.e',
+  (_CORE, _CORE_CLASS, "class SaveOptionsMixin(object):\n    def save_options(self, cookie, **options):\n        self._last_options = options\n"
+                       "        if '_expires' in cookie:\n            self._last_options['expires'] = cookie['_expires']\n        return self._last_options\n\n\n" + _CORE_CLASS),
+  (CK, '\nfrom .core import Middleware\n', '\nfrom .core import Middleware, SaveOptionsMixin\n'),
+  (CK, 'class SignedCookieMiddleware(Middleware):\n', 'class SignedCookieMiddleware(SaveOptionsMixin, Middleware):\n'),
+  (CK, _KWARGS, ''),
+  (CK, _SAVE, "        cookie.save_cookie(response, **self.save_options(cookie, key=self.cookie_name, domain=self.domain, path=self.path,\n"
+              "                                                         secure=self.secure, httponly=self.http_only))\n"))
+B('c16i_cookie_remembered_by_function_in_sibling_module', ['C16'], 'R16.e',
+  (_CORE, _CORE_CLASS, "_SEEN = {}\n\n\ndef remember(name, cookie):\n    _SEEN[name] = cookie\n\n\n" + _CORE_CLASS),
+  (CK, '\nfrom .core import Middleware\n', '\nfrom .core import Middleware, remember\n'),
+  (CK, _NEXT, "        remember(self.cookie_name, cookie)\n" + _NEXT))
+T('c16i_reader_function_in_sibling_module', ['C16'],
+  (_CORE, _CORE_CLASS, "def cookie_stats(name, cookie):\n    stats = {}\n    stats[name] = len(cookie)\n    return stats\n\n\n" + _CORE_CLASS),
+  (CK, '\nfrom .core import Middleware\n', '\nfrom .core import Middleware, cookie_stats\n'),
+  (CK, _NEXT, "        stats = cookie_stats(self.cookie_name, cookie)\n" + _NEXT))
